@@ -5,10 +5,14 @@ package main
 import (
 	"os"
 
+	"github.com/go-logr/logr"
+	"sigs.k8s.io/controller-runtime/pkg/log"
+
 	"verifharness/kit"
 )
 
 func main() {
+	log.SetLogger(logr.Discard())
 	c := kit.Parse("C19", os.Args[1:])
 	partWeight(c)
 	partPrice(c)
